@@ -92,3 +92,18 @@ Example ex_alternatives_answer :
   | _ => False
   end.
 Proof. vm_compute. auto. Qed.
+
+(* no_routing_found (C07): the same dataset yields every one of the six reasons, and the facts the reasons speak about are as
+   the reason says (a vehicle does leave the origin's stop in the NO_ROUTING_FOUND case; none does after 37000) *)
+Example ex_reasons :
+  let q fwd t acc egr := calc_single ex_data ex_cs (ex_params fwd t) acc egr true in
+  q true 35000 ex_acc [row 1 50 60] = NoRouting R_NO_ROUTING_FOUND /\
+  q true 35000 [] ex_egr = NoRouting R_NO_ACCESS_AT_ORIGIN /\
+  q true 35000 ex_acc [] = NoRouting R_NO_ACCESS_AT_DESTINATION /\
+  q true 37000 ex_acc ex_egr = NoRouting R_NO_SERVICE_FROM_ORIGIN /\
+  q false 36000 ex_acc ex_egr = NoRouting R_NO_SERVICE_TO_DESTINATION /\
+  q true 35000 [] [] = NoRouting R_NO_ACCESS_AT_ORIGIN_AND_DESTINATION /\
+  service_from_origin_b ex_data scen_all (ex_params true 35000) ex_acc = true /\
+  service_from_origin_b ex_data scen_all (ex_params true 37000) ex_acc = false /\
+  service_to_destination_b ex_data scen_all (ex_params false 36000) ex_egr false = false.
+Proof. vm_compute. repeat split; reflexivity. Qed.
